@@ -179,6 +179,110 @@ theorem calcPerm_total {K : Type} [Add K] [Mul K] [Zero K] [One K] (order sizes 
     (DMat.eye (prodL sizes)) hlen rfl (by have := inv_le_sq order; omega)
   exact ⟨P, by simp [calcPerm, h, Except.map]⟩
 
+/-! ### the semantic loop invariant (any number of subsystems) -/
+section listlevel
+variable {K : Type} [CommSemiring K]
+
+/-- single swap on lists: the matrix of `_left_permutation_matrix` exchanges the two adjacent factors -/
+theorem leftPerm_swap_list (spre spost : List Nat) (sq sp : Nat) (xh u v xt : List K)
+    (hxh : xh.length = prodL spre) (hu : u.length = sq) (hv : v.length = sp) (hxt : xt.length = prodL spost) :
+    ∃ M : DMat K, leftPerm (K := K) (spre.length + 1) (spre ++ sq :: sp :: spost) = .ok M ∧
+      M.r = prodL spre * (sp * sq) * prodL spost ∧ M.c = prodL spre * (sq * sp) * prodL spost ∧
+      M.mulVecL (kronLG (kronLG xh (kronLG u v)) xt) = .ok (kronLG (kronLG xh (kronLG v u)) xt) := by
+  refine ⟨_, leftPerm_explicit spre sq sp spost, rfl, rfl, ?_⟩
+  have hin : kronLG (kronLG xh (kronLG u v)) xt
+      = (kronVec (kronVec (ofList xh _ hxh) (kronVec (ofList u _ hu) (ofList v _ hv))) (ofList xt _ hxt)).toList := by
+    simp only [kronVec_toList, ofList_toList]
+  have hout : kronLG (kronLG xh (kronLG v u)) xt
+      = (kronVec (kronVec (ofList xh _ hxh) (kronVec (ofList v _ hv) (ofList u _ hu))) (ofList xt _ hxt)).toList := by
+    simp only [kronVec_toList, ofList_toList]
+  rw [hin, hout]
+  rw [mulVecL_of_length _ _ (by simp)]
+  have := left_perm_single_swap (K := K) (prodL spre) sp sq (prodL spost)
+    (ofList xh _ hxh) (ofList u _ hu) (ofList v _ hv) (ofList xt _ hxt)
+  simp only [ofList_vec, this]
+
+/-- helper: the tensor product of a list of vectors, split around an adjacent pair -/
+theorem kronAll_pair (vpre : List (List K)) (u v : List K) (vpost : List (List K)) :
+    kronAll (vpre ++ u :: v :: vpost)
+      = kronLG (kronLG (kronAll vpre) (kronLG u v)) (kronAll vpost) := by
+  rw [kronAll_append]
+  simp only [kronAll, kronLG_assoc]
+
+/-- C07 `perm_sorts`, the semantic loop invariant, any number of subsystems: if the accumulated matrix maps `x₀`
+to the tensor product of the vectors in the current order, the loop of `calc_permutation_matrix` returns a matrix
+mapping `x₀` to the tensor product in the final order, which is ascending in the names and a rearrangement of the
+(name, vector) pairs. -/
+theorem calcPermLoop_semantic (fuel : Nat) (order sizes : List Nat) (perm : DMat K)
+    (vs : List (List K)) (x0 : List K)
+    (hlen : order.length = sizes.length) (hvs : vs.map List.length = sizes) (hr : perm.r = prodL sizes)
+    (hinv : perm.mulVecL x0 = .ok (kronAll vs)) (hf : inv order < fuel) :
+    ∃ P o s vs', calcPermLoop (K := K) leftPerm fuel order sizes perm = .ok (P, o, s) ∧
+      P.mulVecL x0 = .ok (kronAll vs') ∧ o.Pairwise (· ≤ ·) ∧ (o.zip vs').Perm (order.zip vs) := by
+  induction fuel generalizing order sizes perm vs with
+  | zero => omega
+  | succ f ih =>
+    unfold calcPermLoop
+    split
+    · rename_i hc
+      exact ⟨_, _, _, vs, rfl, hinv, checkCross_none _ hc, List.Perm.refl _⟩
+    · rename_i pos hc
+      obtain ⟨pre, a, b, post, rfl, rfl, hlt⟩ := checkCross_some _ _ hc
+      subst hvs
+      have hvl : (pre ++ a :: b :: post).length = vs.length := by simpa using hlen
+      obtain ⟨vpre, u, v, vpost, rfl, hvp⟩ := split_at_pair vs (pre.length + 1) (by omega)
+        (by rw [← hvl]; simp)
+      have hpl : (vpre.map List.length).length + 1 = pre.length + 1 := by simp; omega
+      obtain ⟨M, hM, hMr, hMc, hMv⟩ := leftPerm_swap_list (K := K) (vpre.map List.length) (vpost.map List.length)
+        u.length v.length (kronAll vpre) u v (kronAll vpost) (kronAll_length vpre) rfl rfl (kronAll_length vpost)
+      rw [hpl] at hM
+      have hsz : List.map List.length (vpre ++ u :: v :: vpost)
+          = vpre.map List.length ++ u.length :: v.length :: vpost.map List.length := by simp
+      rw [hsz] at hr ⊢
+      rw [hM]
+      have hmul : M.c = perm.r := by
+        rw [hMc, hr, prodL_append, prodL_cons, prodL_cons]; ring
+      simp only [DMat.mul, hmul, dite_true]
+      have hsw1 : swapAt (pre ++ a :: b :: post) (pre.length + 1) = pre ++ b :: a :: post :=
+        swapAt_decomp pre a b post
+      have hsw2 : swapAt (vpre.map List.length ++ u.length :: v.length :: vpost.map List.length) (pre.length + 1)
+          = vpre.map List.length ++ v.length :: u.length :: vpost.map List.length := by
+        rw [← hpl]; exact swapAt_decomp _ _ _ _
+      rw [hsw1, hsw2]
+      have hmulok : M.mul perm = .ok ⟨M.r, perm.c, M.m.mul (hmul ▸ perm.m)⟩ := by
+        simp only [DMat.mul, hmul, dite_true]
+      have hnew : (⟨M.r, perm.c, M.m.mul (hmul ▸ perm.m)⟩ : DMat K).mulVecL x0
+          = .ok (kronAll (vpre ++ v :: u :: vpost)) := by
+        rw [mul_mulVecL M perm _ hmulok x0 _ hinv, kronAll_pair, hMv, kronAll_pair]
+      obtain ⟨P, o, s, vs', h, hP, hs, hp⟩ := ih (pre ++ b :: a :: post)
+        (vpre.map List.length ++ v.length :: u.length :: vpost.map List.length)
+        ⟨M.r, perm.c, M.m.mul (hmul ▸ perm.m)⟩ (vpre ++ v :: u :: vpost)
+        (by simp at hvl ⊢; omega)
+        (by simp)
+        (by simp only [hMr, prodL_append, prodL_cons]; ring)
+        hnew
+        (by have := inv_append_swap pre a b post hlt; omega)
+      refine ⟨P, o, s, vs', h, hP, hs, hp.trans ?_⟩
+      have hl : pre.length = vpre.length := by omega
+      rw [List.zip_append hl, List.zip_append hl]
+      exact List.Perm.append_left _ (List.Perm.swap _ _ _)
+
+/-- C07 `perm_sorts` (unbounded): for every order of any number of subsystems, one vector per subsystem,
+`calc_permutation_matrix(order, sizes) · (v_σ1 ⊗ … ⊗ v_σk)` is the tensor product of the same vectors arranged with
+the names ascending. -/
+theorem calcPerm_sorts (order : List Nat) (vs : List (List K)) (hlen : order.length = vs.length) :
+    ∃ (P : DMat K) (o : List Nat) (vs' : List (List K)), calcPerm (K := K) order (vs.map List.length) = .ok P ∧
+      P.mulVecL (kronAll vs) = .ok (kronAll vs') ∧ o.Pairwise (· ≤ ·) ∧ (o.zip vs').Perm (order.zip vs) := by
+  have hid : (DMat.eye (prodL (vs.map List.length)) : DMat K).mulVecL (kronAll vs) = .ok (kronAll vs) := by
+    rw [mulVecL_of_length _ _ (by simp [DMat.eye, kronAll_length])]
+    simp [DMat.eye, one_mulVec, ofList_toList]
+  obtain ⟨P, o, s, vs', h, hP, hs, hp⟩ := calcPermLoop_semantic (K := K) (order.length * order.length + 1) order
+    (vs.map List.length) (DMat.eye (prodL (vs.map List.length))) vs (kronAll vs) (by simpa using hlen) rfl rfl hid
+    (by have := inv_le_sq order; omega)
+  exact ⟨P, o, vs', by simp [calcPerm, h, Except.map], hP, hs, hp⟩
+
+end listlevel
+
 def insertNat (x : Nat) : List Nat → List Nat
   | [] => [x]
   | y :: ys => if x ≤ y then x :: y :: ys else y :: insertNat x ys
